@@ -209,7 +209,26 @@ def run(ch: Checker) -> None:
                 n = g.nodes[nid]
                 if n.kind == 'for' and lab == 'iter':
                     loop = n.ast
-                    reads = [x for s in loop.body for x in walk_no_nested(s) if isinstance(x, ast.Subscript) and attr_chain(x.value) == 'self.listeners.pool']  # type: ignore[union-attr]
+                    # subscripts of the listener pool evaluated on this path inside the loop body (locals and inlined helpers' parameters read through)
+                    reads = []
+                    in_body = {id(x) for s_ in loop.body for x in ast.walk(s_)}  # type: ignore[union-attr]
+                    for j, st2 in p.stmts():
+                        if id(st2) not in in_body:
+                            continue
+                        for x in walk_no_nested(st2):
+                            if isinstance(x, ast.Subscript) and isinstance(x.ctx, ast.Load):
+                                xv = sym.value(x, j)
+                                if isinstance(xv, ast.Subscript) and attr_chain(xv.value) == 'self.listeners.pool':
+                                    reads.append(ast.Subscript(value=xv.value, slice=sym.value(x.slice, j) if False else x.slice, ctx=ast.Load()))
+                                    # the index, read through local copies, must be the loop variable
+                                    idx_v = x.slice
+                                    for _ in range(4):
+                                        if isinstance(idx_v, ast.Name) and norm(idx_v) != norm(loop.target):   # type: ignore[union-attr]
+                                            d_ = sym.last_def(idx_v.id, j)
+                                            if d_ is None:
+                                                break
+                                            idx_v = d_[1]
+                                    reads[-1] = ast.Subscript(value=xv.value, slice=idx_v, ctx=ast.Load())
                     if reads and isinstance(loop.iter, ast.Call) and attr_chain(loop.iter.func) == 'range':  # type: ignore[union-attr]
                         sidx = [i for i, (a, b) in enumerate(p.steps) if a == nid][0]
                         args = [sym.value(a, sidx) for a in loop.iter.args]  # type: ignore[union-attr]
